@@ -99,6 +99,8 @@ func c14(c *Ctx) {
 	c14FinAnswered(c, htcp, send)
 	c14PackedKeys(c)
 	c14FlushOnPush(c, htcp)
+	// the payload the segment handler sees ends where the IP datagram ends, not where the Ethernet frame ends (shared with C20)
+	c20FrameTrimmed(c)
 	checksumOddOctetHigh(c, "checksum-odd-octet-high", "Odd-length segments with a non-zero last octet are dropped as corrupt or answered with a checksum the peer rejects.")
 	releasedMemoryNotRetained(c, "released-memory-not-retained", "a connection's handler is chosen, or its event built, from the header of a later frame of another connection", "listener/canary")
 	// ---- (1) roles in send()
